@@ -102,7 +102,7 @@ class C12(Prop):
             'resource passing by. Non-trivial = at least two rows share a key and at least two differ; distinct = distinct (key form, value pools, reverse, knobs, size).')
     ASSUMPTIONS = ['numeric key values are distinct in double precision (the encoding\'s stated domain) and key fields are non-null', 'multi-field keys put numeric fields before text so that the order does not depend on the particular order-preserving number encoding']
     REAL_VS_STUB = {'real': ['dataflows sort_rows', 'kvfile + sqlite ordering'], 'stub': ['KVFile twin: cache-size knob and operation counter']}
-    PROBES = ['reverse', 'spill-path', 'prefix-strings-below-0', 'negative-zero', 'huge-negative', 'decimal-values', 'callable-key', 'format-string-key', 'field-list-key', 'two-field-key', 'ties', 'other-resource', 'rows>10240', 'equal-numbers-different-spelling', 'numeric-looking-text', 'two-resources-sorted-by-one-step', 'control-characters-after-a-prefix']
+    PROBES = ['reverse', 'spill-path', 'prefix-strings-below-0', 'negative-zero', 'huge-negative', 'decimal-values', 'callable-key', 'format-string-key', 'field-list-key', 'two-field-key', 'ties', 'other-resource', 'rows>10240', 'equal-numbers-different-spelling', 'numeric-looking-text', 'two-resources-sorted-by-one-step', 'control-characters-after-a-prefix', 'literal-text-between-text-fields']
     TIERS = {'quick': dict(runs=1500, wall=100, run_wall=300),
              'thorough': dict(runs=40000, wall=1700, run_wall=600)}
     SHRINK_FROZEN = ('fields',)
@@ -114,18 +114,22 @@ class C12(Prop):
         spool = rng.choice(STR_POOLS)
         npool = rng.choice(NUM_POOLS)
         npool2 = rng.choice(NUM_POOLS[:3])
-        fields = [{'name': '_id', 'type': 'integer'}, {'name': 'n', 'type': 'number'}, {'name': 'm', 'type': 'number'}, {'name': 's', 'type': 'string'}]
+        fields = [{'name': '_id', 'type': 'integer'}, {'name': 'n', 'type': 'number'}, {'name': 'm', 'type': 'number'}, {'name': 's', 'type': 'string'},
+                  {'name': 't', 'type': 'string'}]
         rows = []
+        tpool = ['x9', 'x', 'x10', 'y', 'x ']
         for i in range(n):
-            rows.append([i, T.enc(rng.choice(npool)), T.enc(rng.choice(npool2)), rng.choice(spool)])
-        form = rng.choice(['fmt-n', 'fmt-s', 'list-n', 'list-s', 'list-nm', 'fmt-ns', 'fmt-nms', 'callable', 'list-ss'])
+            rows.append([i, T.enc(rng.choice(npool)), T.enc(rng.choice(npool2)), rng.choice(spool), rng.choice(tpool)])
+        form = rng.choice(['fmt-n', 'fmt-s', 'list-n', 'list-s', 'list-nm', 'fmt-ns', 'fmt-nms', 'callable', 'list-ss', 'fmt-ts', 'fmt-ts2'])
         key = {'fmt-n': '{n}', 'fmt-s': '{s}', 'list-n': ['n'], 'list-s': ['s'], 'list-nm': ['n', 'm'], 'fmt-ns': '{n}|{s}', 'fmt-nms': '{n}{m}-{s}',
-               'callable': {'callable': rng.choice(['lower', 'len', 'id'])}, 'list-ss': ['s', 's']}[form]
+               'callable': {'callable': rng.choice(['lower', 'len', 'id'])}, 'list-ss': ['s', 's'],
+               # two text fields with literal text between (and around) them: the literals are part of the key
+               'fmt-ts': '{t}|{s}', 'fmt-ts2': 'k:{t}:{s}!'}[form]
         sc = {'table': {'name': 'res', 'fields': fields, 'rows': rows}, 'key': key, 'reverse': rng.random() < 0.4, 'other': rng.random() < 0.3,
               'batch': rng.sample([1, 2, 7, 1000], 2), 'kv': rng.sample([1, 3, 64, 10240], 2)}
         if rng.random() < 0.2:
-            pf = [{'name': '_id', 'type': 'integer'}, {'name': 'n', 'type': 'string'}, {'name': 'm', 'type': 'string'}, {'name': 's', 'type': 'string'}]
-            sc['pre'] = {'name': 'pre', 'fields': pf, 'rows': [[9000 + i, rng.choice(['x10', 'x9', 'x', 'y']), rng.choice(['p', 'q']), rng.choice(spool)] for i in range(rng.choice([1, 2, 5]))]}
+            pf = [{'name': '_id', 'type': 'integer'}, {'name': 'n', 'type': 'string'}, {'name': 'm', 'type': 'string'}, {'name': 's', 'type': 'string'}, {'name': 't', 'type': 'string'}]
+            sc['pre'] = {'name': 'pre', 'fields': pf, 'rows': [[9000 + i, rng.choice(['x10', 'x9', 'x', 'y']), rng.choice(['p', 'q']), rng.choice(spool), rng.choice(tpool)] for i in range(rng.choice([1, 2, 5]))]}
         return sc
 
     def execute(self, sc, ctx):
@@ -180,6 +184,8 @@ class C12(Prop):
     def _probes(self, sc, ctx, rows, keys):
         if sc.get('reverse'):
             ctx.probe('reverse')
+        if isinstance(sc['key'], str) and '{t}' in sc['key']:
+            ctx.probe('literal-text-between-text-fields')
         if sc.get('pre'):
             ctx.probe('two-resources-sorted-by-one-step')
         if any(isinstance(r.get('s'), str) and any(ord(ch) < 32 for ch in r['s']) for r in rows):
